@@ -11,6 +11,7 @@ def dispatch (line : String) : String :=
       | "verdict" => handleVerdict args
       | "pct" => handlePct args
       | "count" => handleCount args
+      | "insert" => handleInsert args
       | "find-start" => handleFindStart args
       | "has-end" => handleHasEnd args
       | "nesting" => handleNesting args
